@@ -340,6 +340,12 @@ impl<'a> Parser<'a> {
                 parameters.push(name.to_owned());
                 self.advance();
                 self.skip_optional(Token::Comma);
+            } else {
+                // anything but a parameter name (including the end of the input) is an error
+                return Err(ParseError::SyntaxError(format!(
+                    "onverwachte token. verwachtte een parameternaam, kreeg een {:?}",
+                    self.current_token
+                )));
             }
         }
         self.skip(Token::CloseParen)?;
